@@ -9,7 +9,7 @@
 
    The full-strength statement of the property is FALSE of the current code.  It is kept visible below
    ([fit_pure_full], [unfitted_raises_full_biv], [def_before_use_full]) next to its refutation with a concrete
-   witness (each witness is replayed on the real library by the check: findings F5, F6, F7, F8, F9b, F22-F27)
+   witness (each witness is replayed on the real library by the check: findings F5, F6, F7, F8, F9b, F22-F28)
    and next to the strongest partial statement that does hold. *)
 From Coq Require Import ZArith QArith List String Bool Lia.
 From Cop Require Import Model.Lifecycle Model.Vine Model.LifecycleTab Spec.LifecycleProofs.
@@ -258,7 +258,7 @@ Definition unfitted_raises_full_biv : Prop :=
   forall t rs k n g, t <> Independence ->
     snd (query_biv (mkB (Some t) JNone JNone rs true) k n g) = ObsErr NotFitted /\
     to_dict_biv (mkB (Some t) JNone JNone rs true) = Err NotFitted.
-(* ... is REFUTED twice: sample() compares tau = None with 1 (TypeError, F23), to_dict() never checks (F24) *)
+(* ... is REFUTED twice: sample() compares tau = None with 1 (TypeError, F23), to_dict() never checks (F25) *)
 Theorem C19_unfitted_biv_sample_refuted : forall t rs n g,
     query_biv (mkB (Some t) JNone JNone rs true) BSample n g
     = (mkB (Some t) JNone JNone rs true, g, ObsErr TypeErr).
@@ -312,7 +312,7 @@ Theorem C19_get_instance_names :
   get_instance_u (PFamCls FGaussian) [("random_state", UJ (JNum (3 # 2)))] = Err TypeErr.
 Proof. exact get_instance_names. Qed.
 (* construction through the Bivariate entry point: 'independence' evaluates to None (F26);
-   Frank.from_dict / Frank.load in a fresh interpreter raises AttributeError (F25) *)
+   Frank.from_dict / Frank.load in a fresh interpreter raises AttributeError (F24) *)
 Theorem C19_dispatch_independence_refuted : forall th ta,
     new_biv bworld0 None [("copula_type", JStr "independence")] = (mkBW true [] false, Ok None) /\
     from_dict_biv bworld0 None (biv_dict Independence th ta) = (mkBW true [] false, Err AttributeErr).
@@ -393,7 +393,8 @@ Theorem C19_check_fit_first :
    ("Univariate", "probability_density"); ("Univariate", "sample"); ("Univariate", "to_dict")].
 Proof. vm_compute. reflexivity. Qed.
 (* ... and those that do not: the log-densities delegate to a guarded method; Bivariate.sample / to_dict are the
-   refuted cases above (F23, F24); VineCopula.sample / to_dict (F28), Tree/Edge.to_dict are helpers *)
+   refuted cases above (F23, F25); VineCopula.sample raises AttributeError when unfitted (F28); VineCopula.to_dict of
+   an unfitted vine returns {type, vine_type, fitted: False} by design; Tree/Edge.to_dict are helpers *)
 Theorem C19_no_check_fit_first :
   no_check_fit_first =
   [("Bivariate", "log_probability_density"); ("Bivariate", "partial_derivative"); ("Bivariate", "sample"); ("Bivariate", "to_dict");
